@@ -361,7 +361,14 @@ def gen_script(rng, mesh, length=None):
     nf = len(faces)
     nc = sum(len(F) for F in faces)
     de = list(directed_edges(faces).keys())
-    und = sorted({tuple(sorted(k)) for k in de})
+    und = []          # undirected edges in order of first appearance (the order mouette numbers them in)
+    _seen = set()
+    for Fl in faces:
+        for i in range(len(Fl)):
+            e = tuple(sorted((Fl[i], Fl[(i + 1) % len(Fl)])))
+            if e not in _seen:
+                _seen.add(e)
+                und.append(e)
     ne = len(und)
     if length is None:
         length = rng.randint(40, 60)
